@@ -44,6 +44,11 @@ func CheckRun(rep *vh.Report, run *Run, sc any) {
 		}
 		return nb, ok
 	}
+	if run.Runaway != "" {
+		rep.Violate("monitor:runaway-retries", "retry loop without pacing: "+run.Runaway+"; responses that must be retried are retried after the back-off "+
+			"(at least 1 s after 429/503/transport errors), so no admissible run sends this many requests", map[string]any{"scenario": sc})
+		return
+	}
 	for _, c := range run.Calls {
 		if c.Panic != "" {
 			viol("panic", "panic in the submission: "+c.Panic, c)
